@@ -24,9 +24,10 @@ class C19(Prop):
                 kk = [0, 0, 0, 0]; kk[pos] = v; keys.append(bytes(kk))
         routes = ['fmt'] + ['wr%d' % a for a in (0, 2, 3, 4, 5, 6, 7, 8, 9)] + ['rd%d' % a for a in (0, 2, 3, 4, 5, 6, 7, 8, 9)] + \
                  ['rd%dc%d' % (a, c) for a in (0, 3) for c in (1, 2, 3, 4, 5, 6, 7, 9)] + \
+                 ['wr%do%d' % (a, o) for a in (0, 2, 3, 5) for o in (1, 2, 3, 5)] + \
                  ['rd%dp' % a for a in (0, 2, 3, 5)] + \
                  ['rd%dt%d_%d' % (a, c1, c2) for a in (0, 3) for (c1, c2) in ((7, 8), (7, 9), (8, 9), (9, 11), (7, 10), (10, 13), (9, 12), (11, 30), (6, 7), (3, 9))] + \
-                 ['rd%dw%d' % (a, c) for a in (0, 3) for c in (1, 2, 3, 4, 5, 6, 7, 8, 9, 12, 20, 40)]      # t: three reads with WouldBlock in between; p: the bytes are handed over at construction (from_partially_read); the frame arrives in two reads (c: back to back, w: WouldBlock in between), cut inside its header / key / payload
+                 ['rd%dw%d' % (a, c) for a in (0, 3) for c in (1, 2, 3, 4, 5, 6, 7, 8, 9, 12, 20, 40)]      # wr<k>o<off>: the source payload is a Bytes slice starting off bytes into its allocation; t: three reads with WouldBlock in between; p: the bytes are handed over at construction (from_partially_read); the frame arrives in two reads (c: back to back, w: WouldBlock in between), cut inside its header / key / payload
         lens = list(range(0, 68)) + [68, 69, 70, 71, 72, 127, 128, 129, 130, 131, 255, 256, 257, 1023, 1024, 1025, 4095, 4096, 4097] + ([65535, 65536, 65537] if not quick else [65537])
         for n in lens:
             payload = bytes((i * 37 + n * 11 + 5) & 255 for i in range(n))
